@@ -2329,6 +2329,36 @@ func (e *E3) proveLE(at *ssa.BasicBlock, a, b termT, c int64, depth int) bool {
 	if depth >= 3 {
 		return false
 	}
+	// a = (acyclic phi) ± k in a wrap-free 64-bit type: prove edge_value − b ≤ c ∓ k on every incoming edge
+	if bo, ok := a.v.(*ssa.BinOp); ok && !a.len && is64(bo.Type()) && (bo.Op == token.ADD || bo.Op == token.SUB) {
+		var phi *ssa.Phi
+		var k int64
+		okForm := false
+		if kc, isC := constInt(bo.Y); isC {
+			if ph, isP := e.canon(bo.X).(*ssa.Phi); isP {
+				phi, k, okForm = ph, kc, true
+				if bo.Op == token.SUB {
+					k = -kc
+				}
+			}
+		} else if kc, isC := constInt(bo.X); isC && bo.Op == token.ADD {
+			if ph, isP := e.canon(bo.Y).(*ssa.Phi); isP {
+				phi, k, okForm = ph, kc, true
+			}
+		}
+		if okForm && !phiHasBackEdge(phi) && phi.Block().Dominates(at) {
+			all := true
+			for i, ed := range phi.Edges {
+				if !e.proveOnEdge(phi.Block().Preds[i], phi.Block(), e.termOf(ed), b, c-k, depth+1) {
+					all = false
+					break
+				}
+			}
+			if all {
+				return true
+			}
+		}
+	}
 	// phi expansion on a (acyclic phis, or loop phis by induction on the back edges is NOT attempted)
 	if phi, ok := a.v.(*ssa.Phi); ok && !a.len && a.v != nil {
 		if !phiHasBackEdge(phi) {
